@@ -1767,7 +1767,17 @@ def rs1(proj, rep, modules=None):
                         dep.add(s.targets[0].id)
                         changed = True
             rn = {y.id for y in ast.walk(R) if isinstance(y, ast.Name)}
-            if rn & dep:
+            # the defining expression of R must READ the loop variable's elements: a use only inside len(..) does not
+            rdefs = [R] + [v for nm in rn for v, st, p in reaching_defs(fi.node, nm, c) if v != 'param' and isinstance(v, ast.AST)]
+            only_len = True
+            for e in rdefs:
+                inlen = {id(z) for cc in ast.walk(e) if isinstance(cc, ast.Call) and isinstance(cc.func, ast.Name) and cc.func.id == 'len' for z in ast.walk(cc)}
+                if any(isinstance(y, ast.Name) and y.id in set(star) and id(y) not in inlen for y in ast.walk(e)):
+                    only_len = False
+            if rn & dep and only_len and any(isinstance(y, ast.Name) and y.id in set(star) for e in rdefs for y in ast.walk(e)):
+                rep.violation('RS1', fi.qual, f'`{ast.unparse(c)[:80]}`: the row size `{ast.unparse(R)}` depends on `{star[0]}` only through its LENGTH (the leading axes of the '
+                              f'untransposed tensor), not on the sizes of the axes it names: wrong for unequal local dimensions', m, c)
+            elif rn & dep:
                 rep.ok('RS1', fi.qual, f'`{ast.unparse(c)[:60]}`: row size follows the loop variable', m, c)
             else:
                 rep.violation('RS1', fi.qual, f'`{ast.unparse(c)[:80]}`: the axes follow `{star[0]}` but the row size `{ast.unparse(R)}` is computed outside the loop: wrong matricisation '
@@ -3000,11 +3010,11 @@ def w10_w11(proj, rep):
     return n, n11
 
 
-def hm5(proj, rep, modules=('numqi.entangle',)):
+def hm5(proj, rep, modules=('numqi.entangle', 'numqi.utils')):
     from .hermitian import _base_of
     rep.rule('HM5', RULE_HM5)
     n = 0
-    STATE = {'rho', 'dm', 'rhoAB', 'dm0', 'rho0', 'dm_target', 'rho_list', 'dm_list'}
+    STATE = {'rho', 'dm', 'rhoAB', 'dm0', 'rho0', 'dm_target', 'rho_list', 'dm_list', 'sigma', 'rho1', 'dm1'}
     for fi in proj.iter_functions():
         m = fi.module
         if not _in_scope(m, list(modules)):
@@ -3012,6 +3022,20 @@ def hm5(proj, rep, modules=('numqi.entangle',)):
         sp = STATE & set(fi.all_params)
         if not sp:
             continue
+        # names derived from the state by arithmetic / reshape / transpose (one Hermitian matrix in, one Hermitian-up-to-layout matrix out)
+        sp = set(sp)
+        changed = True
+        while changed:
+            changed = False
+            for s2 in ast.walk(fi.node):
+                if isinstance(s2, ast.Assign) and len(s2.targets) == 1 and isinstance(s2.targets[0], ast.Name) and s2.targets[0].id not in sp:
+                    v = s2.value
+                    names = {y.id for y in ast.walk(v) if isinstance(y, ast.Name)}
+                    calls = [ast.unparse(c.func).split('.')[-1] for c in ast.walk(v) if isinstance(c, ast.Call)]
+                    if names & sp and all(c in ('reshape', 'transpose', 'copy', 'astype', 'asarray') for c in calls) and not any(
+                            isinstance(y, ast.Attribute) and y.attr in ('real', 'imag') for y in ast.walk(v)):
+                        sp.add(s2.targets[0].id)
+                        changed = True
         n += 1
         rep.touch(m)
         bad = None
@@ -3357,4 +3381,210 @@ def pg2_ag7_m3g(proj, rep, which):
                           f'(off by 1e-7) can no longer be measured', m, bad[0])
         else:
             rep.ok('M3', f'{fi.qual}[tolerance]', 'no absolute double-precision tolerance on the probabilities', m, fi.node, text='measure tolerance')
+    return n
+
+
+# ------------------------------------------------------------------------------------------------ round 6
+RULE_DTYPE1 = ('DTYPE1: a real / complex dispatch of a torch module never tests equality with ONE complex dtype (`dtype == torch.complex128`) and sends everything else to '
+               'the real arm: torch.complex64 would get the real parameter count and the module parametrises the real manifold only.')
+RULE_H7B = ('H7B: `Circuit.num_qubit` takes the maximum over EVERY index slot of a gate: for a control gate both the control set `index[0]` and the target tuple '
+            '`index[1]`. A circuit whose highest qubit occurs only as a control would get a register one qubit too small.')
+RULE_GR7 = ('GR7: in the hook branch of the tableau recursion the upper bounds run over `range(youngT[0], youngT.sum())` - the number of ROWS of the diagram (first '
+            'entry of the transposed diagram); `young[0]` is the number of columns and coincides only for self-conjugate hooks.')
+RULE_E4B = ('E4B: `PauliOperator.__matmul__` has no shortcut selected by object identity (`if b is self`): the phase of P*P is (-1)^(phase bit + x.z), not the phase bit '
+            'alone, because XZ = -iY is folded into the phase bits.')
+RULE_ID2 = ('ID2: a memo that outlives the call (an attribute of self, a module-level dict) is never keyed by `id(obj)`: CPython reuses addresses of collected objects, so '
+            'a new partner at an old address is served the dead partner\'s entry.')
+RULE_SG1 = ('SG1: a conversion / closed form defined for every dimension or spectrum has ONE formulation; an early `return` under a literal-dimension test '
+            '(`shape[-1] == 2`, `N0 == 2`) or under a small-literal spectrum test is a second formulation whose agreement with the first (normalisation convention, '
+            'squares vs. roots) no shape argument can decide: the check stops and asks for re-calibration.')
+RULE_DT12 = ('DT12: the items of a list are never all cast to the dtype of its FIRST item (`np.asarray(x, dtype=np.asarray(L[0]).dtype)`): a complex later item loses its '
+             'imaginary part when the first one is real.')
+RULE_O6 = ('O6: a public constructor of the catalogue modules does not return (a view of) a module-level array: `_TABLE[i]` is a view, every caller shares the table and '
+           'an in-place edit of one result rewrites the catalogue.')
+RULE_LM2 = ('LM2: a value read from a memo dict (`x = D[key]`) is not updated in place afterwards (`x += ...`): the update lands in the memo, and every later reader of the '
+            'same key receives the accumulated value.')
+
+
+def dtype1_h7b_gr7_e4b(proj, rep, which):
+    n = 0
+    if 'DTYPE1' in which:
+        rep.rule('DTYPE1', RULE_DTYPE1)
+        for fi in proj.iter_functions():
+            m = fi.module
+            if not m.name.startswith('numqi.manifold'):
+                continue
+            for c in ast.walk(fi.node):
+                if isinstance(c, ast.IfExp) or isinstance(c, ast.If):
+                    t = c.test
+                    if isinstance(t, ast.Compare) and len(t.ops) == 1 and isinstance(t.ops[0], (ast.Eq, ast.NotEq)):
+                        txt = [ast.unparse(t.left), ast.unparse(t.comparators[0])]
+                        arms = ast.unparse(c.body if isinstance(c, ast.IfExp) else ast.Module(body=c.body, type_ignores=[])) + ast.unparse(
+                            c.orelse if isinstance(c, ast.IfExp) else ast.Module(body=c.orelse, type_ignores=[]))
+                        if 'torch.float' in arms or 'torch.complex' in arms or 'np.float' in arms:
+                            continue        # a precision mapping inside the complex arm, not a real / complex dispatch
+                        if any(x in ('torch.complex128', 'torch.complex64', 'np.complex128', 'np.complex64') for x in txt) and any('dtype' in x for x in txt):
+                            n += 1
+                            rep.touch(m)
+                            rep.violation('DTYPE1', fi.qual, f'`{ast.unparse(t)}` singles out one complex precision; the other one (complex64 / complex128) takes the real arm', m, c)
+        fi0 = proj.func('numqi.manifold._stiefel.Stiefel.__init__')
+        n += 1
+        rep.ok('DTYPE1', 'numqi.manifold', 'no real / complex dispatch on a single complex dtype', fi0.module, fi0.node, text='manifold dtype dispatch')
+    if 'H7B' in which:
+        rep.rule('H7B', RULE_H7B)
+        fi = proj.func('numqi.sim.circuit.Circuit.num_qubit')
+        m = fi.module
+        rep.touch(m)
+        src = ast.unparse(fi.node).replace(' ', '')
+        n += 1
+        arms = [g for g in ast.walk(fi.node) if isinstance(g, (ast.If, ast.IfExp)) and "kind=='control'" in ast.unparse(g.test).replace(' ', '')]
+        if not arms:
+            rep.undecided('H7B', fi.qual, 'control arm not found', m, fi.node, text='num_qubit control arm')
+        else:
+            g = arms[0]
+            body = ast.unparse(g.body if isinstance(g, ast.IfExp) else ast.Module(body=g.body, type_ignores=[])).replace(' ', '')
+            if '[0]' in body and '[1]' in body:
+                rep.ok('H7B', fi.qual, 'control gates contribute their control set and their targets', m, g)
+            else:
+                rep.violation('H7B', fi.qual, f'`{body[:60]}`: a control gate contributes only one of its two index slots to the register size', m, g)
+    if 'GR7' in which:
+        rep.rule('GR7', RULE_GR7)
+        fi = proj.func('numqi.group._symmetric._get_all_young_tableaux_hf0')
+        m = fi.module
+        rep.touch(m)
+        for c in ast.walk(fi.node):
+            if isinstance(c, ast.Call) and isinstance(c.func, ast.Name) and c.func.id == 'range' and len(c.args) == 2 \
+                    and isinstance(c.args[0], ast.Subscript) and isinstance(c.args[1], ast.Call) and ast.unparse(c.args[1]).endswith('.sum()'):
+                n += 1
+                a0 = ast.unparse(c.args[0].value)
+                if a0 == 'youngT':
+                    rep.ok('GR7', fi.qual, f'`{ast.unparse(c)}` bounds from the transposed diagram', m, c)
+                else:
+                    rep.violation('GR7', fi.qual, f'`{ast.unparse(c)}`: the hook-branch bounds use `{a0}[0]` (number of columns) where the number of rows `youngT[0]` is meant', m, c)
+    if 'E4B' in which:
+        rep.rule('E4B', RULE_E4B)
+        fi = proj.func('numqi.gate._pauli.PauliOperator.__matmul__')
+        m = fi.module
+        rep.touch(m)
+        n += 1
+        bad = [g for g in ast.walk(fi.node) if isinstance(g, ast.If) and any(isinstance(o, (ast.Is, ast.IsNot)) for c in ast.walk(g.test) if isinstance(c, ast.Compare) for o in c.ops)
+               and any(isinstance(r, ast.Return) for s in g.body for r in ast.walk(s))]
+        if bad:
+            rep.violation('E4B', fi.qual, f'`if {ast.unparse(bad[0].test)}: return ...`: identity-gated shortcut in the product; the general phase formula is bypassed', m, bad[0])
+        else:
+            rep.ok('E4B', fi.qual, 'no identity-gated shortcut', m, fi.node, text='matmul shortcut')
+    return n
+
+
+def id2_lm2_dt12(proj, rep, modules=None):
+    for k, v in (('ID2', RULE_ID2), ('LM2', RULE_LM2), ('DT12', RULE_DT12)):
+        rep.rule(k, v)
+    nfun = 0
+    for fi in proj.iter_functions():
+        m = fi.module
+        if not _in_scope(m, modules):
+            continue
+        nfun += 1
+        glob = {t.id for s in m.tree.body if isinstance(s, ast.Assign) for t in s.targets if isinstance(t, ast.Name)}
+        memo_reads = {}
+        for c in ast.walk(fi.node):
+            # ID2
+            if isinstance(c, ast.Call) and isinstance(c.func, ast.Name) and c.func.id == 'id' and len(c.args) == 1:
+                par = getattr(c, '_parent', None)
+                holder = None
+                if isinstance(par, ast.Subscript) and par.slice is c:
+                    holder = par.value
+                elif isinstance(par, ast.Call) and isinstance(par.func, ast.Attribute) and par.func.attr in ('get', 'setdefault', 'pop') and c in par.args:
+                    holder = par.func.value
+                if holder is not None:
+                    persistent = (isinstance(holder, ast.Attribute) and isinstance(holder.value, ast.Name) and holder.value.id == 'self') or \
+                        (isinstance(holder, ast.Name) and holder.id in glob)
+                    if persistent:
+                        rep.touch(m)
+                        rep.violation('ID2', fi.qual, f'`{ast.unparse(par)[:60]}`: a persistent memo keyed by id(): the address of a collected object is reused by a later one', m, c)
+            # LM2: x = D[key]
+            if isinstance(c, ast.Assign) and isinstance(c.targets[0], ast.Name) and isinstance(c.value, ast.Subscript) and isinstance(c.value.value, ast.Name):
+                D = c.value.value.id
+                is_memo = any(isinstance(s, ast.Assign) and isinstance(s.targets[0], ast.Subscript) and isinstance(s.targets[0].value, ast.Name) and s.targets[0].value.id == D
+                              for s in ast.walk(fi.node)) and any(isinstance(g, ast.Compare) and isinstance(g.ops[0], (ast.NotIn, ast.In)) and isinstance(g.comparators[0], ast.Name)
+                                                                  and g.comparators[0].id == D for g in ast.walk(fi.node))
+                if is_memo:
+                    memo_reads[c.targets[0].id] = (c, D)
+            # DT12
+            if isinstance(c, ast.Call) and ast.unparse(c.func).split('.')[-1] in ('asarray', 'array', 'ascontiguousarray') and c.args:
+                dt = next((k.value for k in c.keywords if k.arg == 'dtype'), None)
+                if isinstance(dt, ast.Name):
+                    for v, st, p in reaching_defs(fi.node, dt.id, c):
+                        if v != 'param' and isinstance(v, ast.Attribute) and v.attr == 'dtype' and any(
+                                isinstance(y, ast.Subscript) and isinstance(y.slice, ast.Constant) and y.slice.value == 0 for y in ast.walk(v.value)) \
+                                and any(isinstance(p2, (ast.ListComp, ast.GeneratorExp, ast.For)) for p2 in _ancestors(c, fi.node)):
+                            rep.touch(m)
+                            rep.violation('DT12', fi.qual, f'`{ast.unparse(c)[:60]}` casts every item to `{ast.unparse(v)[:40]}`, the dtype of the FIRST item: complex later items lose '
+                                          f'their imaginary part', m, c)
+        for s in ast.walk(fi.node):
+            if isinstance(s, ast.AugAssign) and isinstance(s.target, ast.Name) and s.target.id in memo_reads and s.lineno > memo_reads[s.target.id][0].lineno:
+                c0, D = memo_reads[s.target.id]
+                rep.touch(m)
+                rep.violation('LM2', fi.qual, f'`{ast.unparse(c0)[:40]}` then `{ast.unparse(s)[:50]}`: the in-place update is applied to the object stored in the memo `{D}`; later '
+                              f'readers of the same key get the accumulated value', m, s)
+    rep.count('ID2.functions_scanned', nfun)
+    if nfun:
+        rep.ok('ID2', 'scope', f'{nfun} functions scanned: no persistent id()-keyed memo, no in-place update of a memo value, no cast to the first item\'s dtype', proj.mod('numqi.utils'),
+               proj.mod('numqi.utils').tree, text='id memo / memo alias / first dtype sweep')
+    return nfun
+
+
+def o6(proj, rep, modules):
+    rep.rule('O6', RULE_O6)
+    n = 0
+    for mq in modules:
+        m = proj.mod(mq)
+        rep.touch(m)
+        tables = {t.id for s in m.tree.body if isinstance(s, ast.Assign) for t in s.targets if isinstance(t, ast.Name)
+                  and any(isinstance(c, ast.Call) and ast.unparse(c.func).split('.')[0] in ('np', 'numpy', 'torch') for c in ast.walk(s.value))}
+        for fi in [f for f in proj.funcs.values() if f.module is m and f.cls is None and not f.qual.rsplit('.', 1)[1].startswith('_')]:
+            for r in ast.walk(fi.node):
+                if not (isinstance(r, ast.Return) and r.value is not None):
+                    continue
+                n += 1
+                vals = [r.value]
+                if isinstance(r.value, ast.Name):
+                    vals = [v for v, st, p in reaching_defs(fi.node, r.value.id, r) if v != 'param' and isinstance(v, ast.AST)]
+                for v in vals:
+                    b = v
+                    while isinstance(b, (ast.Subscript, ast.Attribute)) or (isinstance(b, ast.Call) and isinstance(b.func, ast.Attribute) and b.func.attr in ('reshape', 'view', 'ravel', 'transpose')):
+                        b = b.value if not isinstance(b, ast.Call) else b.func.value
+                    if isinstance(b, ast.Name) and b.id in tables and b is not v:
+                        rep.violation('O6', fi.qual, f'`{ast.unparse(v)[:40]}` is a view of the module-level array `{b.id}`: all callers share the catalogue entry', m, r)
+    rep.count('O6.public_returns', n)
+    return n
+
+
+def sg1(proj, rep, func_quals):
+    """literal-dimension / tolerance-gated early returns: undecidable second formulation -> undecided"""
+    rep.rule('SG1', RULE_SG1)
+    n = 0
+    for q in func_quals:
+        fi = proj.func(q)
+        m = fi.module
+        rep.touch(m)
+        bad = None
+        for g in ast.walk(fi.node):
+            if not isinstance(g, ast.If):
+                continue
+            early = any(isinstance(s, ast.Return) and s.value is not None and not isinstance(s.value, ast.Constant) for s in g.body)
+            if not early:
+                continue
+            t = ast.unparse(g.test).replace(' ', '')
+            lit_dim = re.search(r'(shape\[-?\d\]|N0|dim|\bd)==2(?!\d)', t) is not None
+            small = any(isinstance(c, ast.Constant) and isinstance(c.value, float) and 0 < c.value < 1e-3 for c in ast.walk(g.test)) and \
+                any(isinstance(c, ast.Subscript) for c in ast.walk(g.test))
+            if lit_dim or small:
+                bad = g
+        if bad is not None:
+            rep.undecided('SG1', q, f'`if {ast.unparse(bad.test)[:50]}: return <second formulation>`: agreement with the general formula is not decidable from the shape of the code', m, bad)
+        else:
+            n += 1
+            rep.ok('SG1', q, 'single formulation', m, fi.node, text=f'{q} single formulation')
+    rep.count('SG1.functions', n)
     return n
